@@ -2,7 +2,7 @@
     the access table it inventoried (as a term) and the list of location classes; the model answers
     with the violating location classes and the protection every class enjoys. *)
 From Coq Require Import List NArith Bool.
-From Vivid Require Import Base.Tm Race.Lockset.
+From Vivid Require Import Base.Tm Race.Lockset Race.Tree Race.TreeRun Race.Crash.
 Import ListNotations.
 Local Open Scope N_scope.
 
@@ -32,8 +32,33 @@ Definition get_access (t : tm) : option access :=
   | _ => None
   end.
 
+Definition get_pkind (t : tm) : option pkind :=
+  match t with
+  | TN 1 => Some KUnlock | TN 2 => Some KClose | TN 3 => Some KSend
+  | TN 4 => Some KMapWrite | TN 5 => Some KMapAssign | TN 6 => Some KMapStore
+  | _ => None
+  end.
+Definition get_psite (t : tm) : option psite :=
+  match t with
+  | TL [TN id; k; TN cl; g; ph] =>
+      match get_pkind k, get_bool g, get_phase ph with
+      | Some k, Some g, Some ph => Some (mkPsite id k cl g ph)
+      | _, _, _ => None
+      end
+  | _ => None
+  end.
+(** (4 sites): the panic-site discipline (Race/Crash.v): the unguarded site ids and whether the discipline holds *)
+Definition run_panics (t : tm) : tm :=
+  match get_list get_psite t with
+  | Some T => TL [tlist TN (unguarded T); tbool (panic_discipline_ok T)]
+  | None => tm_err 5
+  end.
+
+(** [run_race] also serves the actor-tree machine (Race/TreeRun.v): inputs tagged (2 ...) and (3 ...) *)
 Definition run_race (t : tm) : tm :=
   match t with
+  | TL [TN 4; sites] => run_panics sites
+  | TL (TN _ :: _) => run_tree t
   | TL [tab; locs] =>
       match get_list get_access tab, get_list get_n locs with
       | Some T, Some ls =>
